@@ -549,6 +549,15 @@ class ISD(model.Document):
 
         StyleProcessors.BY_STYLE_PROP[inherited_style_prop].inherit(parent, isd_element)
 
+      # make the writing mode of the region available to its descendents: ISD elements are attached to their
+      # parent only once all their children have been processed, so _get_writing_mode() cannot reach the region
+      # when style properties are computed. The property does not apply to content elements and is removed below.
+
+      isd_element.set_style(
+        styles.StyleProperties.WritingMode,
+        parent.get_style(styles.StyleProperties.WritingMode)
+      )
+
 
     # initial value styling
 
